@@ -51,6 +51,7 @@ var UtxoValidationRules = []common.UtxoValidationRuleFunc{
 	UtxoValidateWrongNetworkWithdrawal,
 	UtxoValidateMaxTxSizeUtxo,
 	UtxoValidateExUnitsTooBigUtxo,
+	UtxoValidateTooManyCollateralInputs,
 	UtxoValidateNativeScripts,
 	UtxoValidateExtraneousRedeemers,
 	UtxoValidatePlutusScripts,
@@ -358,13 +359,18 @@ func UtxoValidateInsufficientCollateral(
 	if fee == nil {
 		fee = new(big.Int)
 	}
-	minCollateral := new(
+	// Required: balance * 100 >= fee * collateralPercentage, compared exactly
+	// (dividing first would round in the transaction's favour)
+	feeShare := new(
 		big.Int,
 	).Mul(fee, new(big.Int).SetUint64(uint64(tmpPparams.CollateralPercentage)))
-	minCollateral.Div(minCollateral, big.NewInt(100))
-	if totalCollateral.Cmp(minCollateral) >= 0 {
+	scaledCollateral := new(big.Int).Mul(totalCollateral, big.NewInt(100))
+	if scaledCollateral.Cmp(feeShare) >= 0 {
 		return nil
 	}
+	// minCollateral = ceil(fee * collateralPercentage / 100)
+	minCollateral := new(big.Int).Add(feeShare, big.NewInt(99))
+	minCollateral.Div(minCollateral, big.NewInt(100))
 	// Convert to uint64 for error struct (best effort)
 	var providedU, requiredU uint64
 	if totalCollateral.IsUint64() {
@@ -443,6 +449,27 @@ func UtxoValidateNoCollateralInputs(
 		return nil
 	}
 	return NoCollateralInputsError{}
+}
+
+// UtxoValidateTooManyCollateralInputs ensures that the number of collateral inputs does not exceed the protocol maximum
+func UtxoValidateTooManyCollateralInputs(
+	tx common.Transaction,
+	slot uint64,
+	ls common.LedgerState,
+	pp common.ProtocolParameters,
+) error {
+	tmpPparams, ok := pp.(*AlonzoProtocolParameters)
+	if !ok {
+		return errors.New("pparams are not expected type")
+	}
+	collateralCount := uint(len(tx.Collateral()))
+	if collateralCount <= tmpPparams.MaxCollateralInputs {
+		return nil
+	}
+	return TooManyCollateralInputsError{
+		Provided: collateralCount,
+		Max:      tmpPparams.MaxCollateralInputs,
+	}
 }
 
 func UtxoValidateBadInputsUtxo(
